@@ -3,7 +3,7 @@ import hashlib, io, contextlib
 from harness.common import Case, hx, unhx, tx_to_line, Fields
 from harness import gen as G, fixtures as FX
 
-KINDS = 'ms'
+KINDS = 'gms'
 RULE = ('random and fixture 80-byte headers (parse, re-serialise, hash) and wrong lengths; compact targets with exponent 0..40; '
         "the length scanner on C01's generated transactions followed by random bytes; synthetic framed blocks of 1..300 generated "
         'transactions (legacy/segwit/mixed, count boundaries 252/253) where every parsed transaction must equal the parse of its own '
@@ -73,10 +73,10 @@ def cases(ctx):
         raw = tx.to_bytes(tx.has_segwit)
         rest = G.rbytes(rng, rng.choice([0, 0, 1, 7, 100]))
         ctx.count('scanner-' + ('segwit' if tx.has_segwit else 'legacy'))
-        yield Case(f'tx_len {hx(raw + rest)}', 'ms', nontrivial=tx.has_segwit, tag='scanner',
+        yield Case(f'tx_len {hx(raw + rest)}', 'gms', nontrivial=tx.has_segwit, tag='scanner',
                    spec=lambda ans, raw=raw: (f's:echo {len(raw)}', ans))
     for cut in (0, 4, 5, 6, 10, 41, 42, 50):
-        yield Case(f'tx_len {hx(G.rbytes(rng, cut))}', 'm', nontrivial=True, tag='scanner-short', domain=False)
+        yield Case(f'tx_len {hx(G.rbytes(rng, cut))}', 'gm', nontrivial=True, tag='scanner-short', domain=False)
     # synthetic blocks
     sizes = [1, 2, 3, 5, 17] + ([252, 253] if ctx.scale <= 1 else [252, 253, 300])
     sizes += [rng.randrange(1, 60) for _ in range(ctx.n(12, 300))]
